@@ -430,7 +430,10 @@ impl Cli {
         }
         args.push(output.clone());
         args.extend(conf.cli_args());
-        args.extend(["--buffered-chunks".into(), format!("{}", nbuf)]);
+        if nbuf > 0 {
+            // nbuf = 0: the option is left out and bita derives the buffering from the number of CPUs it sees
+            args.extend(["--buffered-chunks".into(), format!("{}", nbuf)]);
+        }
         let mut mfiles = vec![];
         // a metadata file need not be a regular file either (process substitution, a named pipe, /dev/stdin): every third entry is
         // delivered through a named pipe whose writer hands the value over in two pieces
@@ -471,8 +474,17 @@ impl Cli {
             // completion order, channel hand-offs and the writer thread interleave differently from an undisturbed run
             cmd = Command::new("strace");
             cmd.args(["-f", "-o", "/dev/null", "-e", "trace=read,write,futex", "-e", "inject=read,write,futex:delay_enter=250:when=2+3", &self.bita]);
+        } else if sched == "onecpu" {
+            // the whole process confined to one CPU (another default buffering when --buffered-chunks is absent, no parallelism between the workers)
+            cmd = Command::new("taskset");
+            cmd.args(["-c", "0", &self.bita]);
         } else {
             cmd = Command::new(&self.bita);
+        }
+        if sched == "later" {
+            // "in every run": more than a second later, in another time zone and locale, with another home directory
+            std::thread::sleep(std::time::Duration::from_millis(1100));
+            cmd.env("TZ", "Asia/Tokyo").env("LANG", "de_DE.UTF-8").env("LC_ALL", "de_DE.UTF-8").env("HOME", "/nonexistent").env("USER", "somebody");
         }
         cmd.args(&args).env("RUST_BACKTRACE", "0").stdout(Stdio::null()).stderr(Stdio::piped());
         if delivery == "pipe" {
@@ -575,11 +587,16 @@ impl Cli {
         let err = String::from_utf8_lossy(&outp.stderr).lines().last().unwrap_or("").to_string();
         (format!("{}{}", res, if res == "ok" { String::new() } else { format!(": {}", err) }), code, arch, left)
     }
-    pub fn clone(&self, archive_arg: &str, tag: &str, nbuf: usize, extra: &[String]) -> (i32, Option<Vec<u8>>, String) {
+    pub fn clone(&self, archive_arg: &str, tag: &str, nbuf: usize, extra: &[String], src_len: usize) -> (i32, Option<Vec<u8>>, String) {
         let output = format!("{}/clone_{}.bin", self.dir, tag);
         let _ = std::fs::remove_file(&output);
         let mut cmd = Command::new(&self.bita);
         cmd.args(["clone", archive_arg, &output, "--buffered-chunks", &format!("{}", nbuf)]).args(extra);
+        if extra.iter().any(|x| x == "--force-create") {
+            // the output path is taken by a longer file full of other (non-zero) bytes: whatever the source holds, --force-create must end with
+            // exactly the source (C01 speaks of the output, not of a fresh file)
+            std::fs::write(&output, vec![0xA5u8; src_len + src_len / 3 + 777]).unwrap();
+        }
         cmd.env("RUST_BACKTRACE", "0").stdin(Stdio::null()).stdout(Stdio::null()).stderr(Stdio::piped());
         let outp = cmd.output().expect("run bita clone");
         let code = outp.status.code().unwrap_or(-1);
@@ -722,16 +739,18 @@ pub fn main(args: &[String]) {
                 }
             } else {
                 let apath = format!("{}/out_{}.cba", cli.dir, tag);
+                // every other scenario clones onto an existing file (--force-create)
+                let over: Vec<String> = if n % 2 == 0 { vec!["--force-create".to_string()] } else { vec![] };
                 let (code, data, err) = if transport == "http" {
                     let slog: reader_l1::SLog = Arc::new(Mutex::new(vec![]));
                     let a2 = Arc::new(a.clone());
                     let l2 = listener.clone();
                     let server = rt.spawn(reader_l1::serve(l2, a2, vec![], slog, 0));
-                    let r = cli.clone(&format!("http://127.0.0.1:{}/a.cba", port), &tag, conf.nbuf, &[]);
+                    let r = cli.clone(&format!("http://127.0.0.1:{}/a.cba", port), &tag, conf.nbuf, &over, conf.data.len());
                     server.abort();
                     r
                 } else {
-                    cli.clone(&apath, &tag, conf.nbuf, &[])
+                    cli.clone(&apath, &tag, conf.nbuf, &over, conf.data.len())
                 };
                 (if code == 0 { "ok".into() } else if code == 101 { "panic".into() } else { format!("err: {}", err) }, data)
             };
